@@ -12,6 +12,12 @@ PROPS_REPORT = "RotoV.Props.C06Report"
 MODULES_REPORT = ["RotoV.Model.ReportBase"]
 PROPS_UNIFY = "RotoV.Props.C06Unify"
 MODULES_UNIFY = ["RotoV.Lemmas.Unify", "RotoV.Model.Unify", "RotoV.Model.UnifyBase"]
+# the parser: model over the proved lexer model, parse_total / parse_error_spans_ok, and the
+# generated decision tables + call skeletons of src/parser/*.rs pinned to what the model was written against
+PROPS_PARSE = "RotoV.Props.C06Parse"
+MODULES_PARSE = ["RotoV.Model.ParseBase", "RotoV.Model.Parse", "RotoV.Lemmas.ParseLexText", "RotoV.Lemmas.ParseFText", "RotoV.Lemmas.ParseSub", "RotoV.Lemmas.ParseBase", "RotoV.Lemmas.ParsePaths",
+                 "RotoV.Lemmas.ParseTypes", "RotoV.Lemmas.ParseExpr", "RotoV.Lemmas.ParseTop"]
+PROPS_PARSE_SOURCE = "RotoV.Props.C06ParseSource"
 
 
 def search(ctx):
@@ -23,16 +29,21 @@ def search(ctx):
     if any(common.match_known(known, v) is None for v in ctx.impl_violations):
         return  # the run itself already produced a concrete failing input
     if ctx.build_harness("c06"):
-        ctx.harness("c06", ["run", ctx.seed + 7919, "thorough"], timeout=3000, name="search:c06")
+        ctx.harness("c06", ["run", ctx.seed + 7919, "thorough", "--parse-strict"], timeout=3000, name="search:c06")
 
 
 def run(ctx):
-    ctx.extract(["lextables", "unifyfacts", "reportslices"])
+    # `precedence` (src/parser/precedence.rs: relative_associativity, peek_binop) is the relation the parser model's
+    # Pratt loop calls; `parsefacts`: decision tables and call skeletons of the parser
+    ctx.extract(["lextables", "unifyfacts", "reportslices", "precedence", "parsefacts"])
     ctx.prove(PROPS, extra_modules=MODULES)
     ctx.prove(PROPS_REPORT, extra_modules=MODULES_REPORT, extra_targets=())
     ctx.prove(PROPS_UNIFY, extra_modules=MODULES_UNIFY, extra_targets=())
+    ctx.prove(PROPS_PARSE, extra_modules=MODULES_PARSE, extra_targets=())
+    ctx.prove(PROPS_PARSE_SOURCE, extra_targets=())
     if ctx.build_harness("c06"):
-        ctx.harness("c06", ["run", ctx.seed, ctx.tier], timeout=3000)
+        # --parse-strict: a driver without the parser model (`bad-op`) is a broken tie, not a skipped comparison
+        ctx.harness("c06", ["run", ctx.seed, ctx.tier, "--parse-strict"], timeout=3000)
     ctx.trusted += [
         "unicode-ident (XID_Start / XID_Continue) and char::is_whitespace are PARAMETERS of the lexer theorems; "
         "the driver instantiates them per input from the real functions (hook char_flags)",
@@ -40,8 +51,16 @@ def run(ctx):
         "strip_prefix, char_indices behave as documented (modelled in Model/Lexer.lean)",
         "the hand-written lexer model is tied to src/parser/lexer.rs by the generated tables (keywords, punctuation, "
         "recogniser order) and by diffing token streams (kinds + byte spans) on every generated input",
-        "EXPLORATION ONLY (no theorem): parser, type checker, lowering, code generation and report rendering bodies "
-        "are covered by the crash oracle — panic / signal / stack overflow / timeout in a worker process",
+        "the hand-written parser model (Model/ParseBase, Model/Parse) is tied to src/parser/{mod,expr,filter_map}.rs by the "
+        "generated decision tables it reads, by the generated call skeleton of every parser method pinned in "
+        "Props/C06ParseSource, and by diffing its outcome (tree shape / error kind + location + hint, and the whole span "
+        "table) against the real parser on every single-file input; the literal decoders proper (which literals std parse / "
+        "rustc-literal-escaper accept, and the escaper's error range relative to its input) are PARAMETERS of the parser "
+        "theorems, instantiated per input from the real decoders (hook literal_verdict; the driver turns the absolute "
+        "location the real parser reports into the relative range, the model redoes the parser's arithmetic on it)",
+        "EXPLORATION ONLY (no theorem): type checker bodies (beyond unification / the cycle check), lowering, code "
+        "generation and report rendering bodies are covered by the crash oracle — panic / signal / stack overflow / "
+        "timeout in a worker process",
         "ariadne, rustc-literal-escaper, cranelift: exercised by the oracle, not modelled",
         "inputs: file names inside one tree are distinct (as on disk); nesting depth <= 64",
     ]
